@@ -531,6 +531,86 @@ func main() {
 		}
 	}, r.PanicViolation("verifier.Verify"))
 
+	// ---- history independence: ONE verifier, ONE plugin object that hands out the SAME metadata object on every call and
+	// ONE revocation script verify two cells in sequence (two statements with different levels); the second verification
+	// must decide exactly as the model says for that cell alone (state carried from the first one is a violation).
+	{
+		type pairT struct {
+			plugin     string
+			reversed   bool
+			vTI, vREV  string
+			L1, L2     lib.LevelMap
+			ident      bool
+			rev        string
+		}
+		var pairs []pairT
+		lm := lib.AllLevelMaps()
+		k := 0
+		for _, pl := range []string{"TI", "REV", "TIREV"} {
+			for _, reversed := range []bool{false, true} {
+				for _, vTI := range []string{"success", "failure"} {
+					for _, vREV := range []string{"success", "failure"} {
+						for i1 := range lm {
+							for i2 := range lm {
+								k++
+								if r.Quick() && k%3 != 0 {
+									continue
+								}
+								pairs = append(pairs, pairT{pl, reversed, vTI, vREV, lm[i1], lm[i2], k%2 == 0, []string{"ok", "revoked"}[k%5%2]})
+							}
+						}
+					}
+				}
+			}
+		}
+		sigA := envs[envKey{lib.MediaJWS, "notary.x509", true, false, "yes", "none"}]
+		if sigA == nil {
+			sigA = build(envKey{lib.MediaJWS, "notary.x509", true, false, "yes", "none"})
+		}
+		lib.Parallel(len(pairs), 16, func(pi int) {
+			pr := pairs[pi]
+			caps := capsOf(pr.plugin)
+			if pr.reversed && len(caps) == 2 {
+				caps = []pf.Capability{caps[1], caps[0]}
+			}
+			meta := &pf.GetMetadataResponse{Name: "plug", Description: "d", Version: "1.0.0", URL: "u", SupportedContractVersions: []string{"1.0"}, Capabilities: caps}
+			sp := &sharedPlug{plug: plug{version: "1.0.0", caps: caps, verdict: map[pf.Capability]string{TI: pr.vTI, REV: pr.vREV}}, meta: meta}
+			rs := &revScript{status: pr.rev}
+			id := "x509.subject:C=US,ST=WA,O=Org"
+			if !pr.ident {
+				id = "x509.subject:C=US,ST=WA,O=Other"
+			}
+			doc := &trustpolicy.OCIDocument{Version: "1.0", TrustPolicies: []trustpolicy.OCITrustPolicy{
+				{Name: "first", SignatureVerification: pr.L1.SV(pi), TrustStores: []string{"ca:x"}, TrustedIdentities: []string{id}, RegistryScopes: []string{"reg.io/first"}},
+				{Name: "second", SignatureVerification: pr.L2.SV(pi + 1), TrustStores: []string{"ca:x"}, TrustedIdentities: []string{id}, RegistryScopes: []string{"reg.io/second"}}}}
+			v, err := verifier.NewVerifierWithOptions(lib.NewMemTS().Put("ca:x", root.Cert), verifier.VerifierOptions{OCITrustPolicy: doc, RevocationCodeSigningValidator: rs, RevocationTimestampingValidator: lib.OKRev{}, PluginManager: &sharedMgr{sp}})
+			if err != nil {
+				panic(err)
+			}
+			for step, L := range []lib.LevelMap{pr.L1, pr.L2} {
+				c := cell{Format: lib.MediaJWS, Scheme: "notary.x509", L: L, Anchor: "found", Ident: pr.ident, CertValid: true, Rev: pr.rev, Plugin: pr.plugin, VTI: pr.vTI, VREV: pr.vREV, Crit: "none"}
+				want := model(c)
+				rs.calls, sp.calls, sp.lastCaps = 0, 0, nil
+				_, verr := v.Verify(context.Background(), desc, sigA, notation.VerifierVerifyOptions{ArtifactReference: []string{"reg.io/first", "reg.io/second"}[step] + "@" + desc.Digest.String(), SignatureMediaType: lib.MediaJWS})
+				r.Eval(fmt.Sprintf("sequence|%d|%d", pi, step))
+				r.Event("sequence-verifications")
+				wit := map[string]any{"pair": fmt.Sprintf("%+v", pr), "step": step + 1, "level": L.String(), "library_error": fmt.Sprint(verr), "model": want.why, "plugin_asked_for": fmt.Sprint(sp.lastCaps), "native_revocation_calls": rs.calls}
+				sg := map[string]string{"kind": "sequence-decision", "plugin": pr.plugin, "step": fmt.Sprint(step + 1)}
+				if want.accept != (verr == nil) {
+					r.Violation(sg, fmt.Sprintf("verification #%d through the same verifier and plugin object: model accept=%v (%s), library accept=%v", step+1, want.accept, want.why, verr == nil), wit)
+				}
+				if sp.calls == 1 && !sameCaps(sp.lastCaps, want.requested) {
+					sg["kind"] = "sequence-plugin-capabilities"
+					r.Violation(sg, fmt.Sprintf("verification #%d: plugin was asked for %v, model says %v", step+1, sp.lastCaps, want.requested), wit)
+				}
+				if has(capsOf(pr.plugin), REV) && rs.calls > 0 {
+					sg["kind"] = "sequence-native-revocation-not-replaced"
+					r.Violation(sg, fmt.Sprintf("verification #%d: native revocation validator consulted although the plugin declares the revocation capability", step+1), wit)
+				}
+			}
+		}, r.PanicViolation("verifier.Verify (sequence)"))
+	}
+
 	// ---- relational monitor: monotonicity along every single enforce -> log weakening
 	idx := map[string]int{}
 	for i, c := range cells {
@@ -605,3 +685,19 @@ type legacy struct{ r *revScript }
 func (l legacy) Validate(chain []*x509.Certificate, t time.Time) ([]*result.CertRevocationResult, error) {
 	return l.r.ValidateContext(context.Background(), revocation.ValidateContextOptions{CertChain: chain, AuthenticSigningTime: t})
 }
+
+
+// sharedPlug hands out the SAME metadata object on every GetMetadata call (as an in-process plugin may).
+type sharedPlug struct {
+	plug
+	meta *pf.GetMetadataResponse
+}
+
+func (p *sharedPlug) GetMetadata(ctx context.Context, req *pf.GetMetadataRequest) (*pf.GetMetadataResponse, error) {
+	return p.meta, nil
+}
+
+type sharedMgr struct{ p *sharedPlug }
+
+func (m *sharedMgr) Get(ctx context.Context, name string) (pf.Plugin, error) { return m.p, nil }
+func (m *sharedMgr) List(ctx context.Context) ([]string, error)               { return nil, nil }
